@@ -176,7 +176,7 @@ theorem wp2_bind {α β : Type} (m1 m2 : P α) (f1 f2 : α → P β) (s : PState
     (h : wp2 p1 p2 m1 m2 s (fun a1 a2 t => wp2 p1 p2 (f1 a1) (f2 a2) t Q)) :
     wp2 p1 p2 (m1 >>= f1) (m2 >>= f2) s Q := by
   unfold wp2 at h ⊢
-  rw [P.run_bind, P.run_bind]
+  rw [P.runBind, P.runBind]
   cases h1 : m1.run (withP s p1) with
   | error e1 =>
     cases h2 : m2.run (withP s p2) with
@@ -559,6 +559,12 @@ theorem parseRegexTail_sim (s : PState) :
 theorem parseRegex_sim (s : PState) :
     wp2 p1 p2 parseRegex parseRegex s (fun a b _ => a = b) := by
   rw [parseRegex_eq]
+  apply wp2_bind
+  apply wp2_get
+  show wp2 p1 p2 (if s.n > 0 then pure none else _) (if s.n > 0 then pure none else _) s _
+  apply wp2_ite'
+  · intro _; exact wp2_pure _ _ _ _ rfl
+  intro _
   apply wp2_bind
   apply wp2_peekRune
   dsimp only
